@@ -183,7 +183,9 @@ fn patterns(p: &PT, depth: u32) -> Vec<Pat> {
         PT::S => {
             for q in patterns(&PT::Bool, depth - 1) {
                 for r in patterns(&PT::E2, depth - 1) {
-                    v.push(Pat::Struct("S".into(), vec![("f".into(), q.clone()), ("g".into(), r)]));
+                    v.push(Pat::Struct("S".into(), vec![("f".into(), q.clone()), ("g".into(), r.clone())]));
+                    // the same pattern with the fields written in the other order
+                    v.push(Pat::Struct("S".into(), vec![("g".into(), r), ("f".into(), q.clone())]));
                 }
             }
         }
@@ -211,8 +213,9 @@ fn instantiate(p: &Pat, t: &PT, n: &mut Names, out: &mut Vec<(VarId, PT)>) -> Pa
             Pat::Ctor(en.clone(), vn.clone(), *q, ps.iter().zip(tys.iter()).map(|(x, tt)| instantiate(x, tt, n, out)).collect())
         }
         (Pat::Struct(sn, fs), _) => {
-            let tys = [PT::Bool, PT::E2];
-            Pat::Struct(sn.clone(), fs.iter().zip(tys.iter()).map(|((f, x), tt)| (f.clone(), instantiate(x, tt, n, out))).collect())
+            // field types by name (patterns may list the fields in any order)
+            let ty_of_field = |f: &str| if f == "f" { PT::Bool } else { PT::E2 };
+            Pat::Struct(sn.clone(), fs.iter().map(|(f, x)| (f.clone(), instantiate(x, &ty_of_field(f), n, out))).collect())
         }
         (other, _) => other.clone(),
     }
@@ -559,7 +562,7 @@ impl Family for Patterns {
         &["C06", "C01", "C02", "C04"]
     }
     fn rule(&self) -> &'static str {
-        "scrutinee types {bool,int32,uint8,string,(bool,bool),(bool,int32),E,Opt[bool],S,(E2,E2),(int32,int32),(string,int32),(int32,string),(int32,int32,int32)}; all patterns (wildcard, variable, 2 literals, constructor/tuple/struct with sub-patterns; depth 2 for S and (E2,E2); columns of all-literal-typed tuples use {_, lit0, lit1}); all matrices of <= 3 rows for types with <= 12 patterns, else <= 2 rows, plus the 4-row matrices of (int32,int32) over the 8 tuple patterns with a literal, with a catch-all (quick) / <= 4 rows for <= 12 patterns (unit result; tuple types with a catch-all only), <= 3 rows for <= 30 patterns, else 2 (thorough), with and without a trailing catch-all, results unit and int32; every destructuring let; matrices of <= 2 rows also with the scrutinee held in a variable that is matched twice; each matrix applied to every value of the type (one program per value when some value matches no row); the scrutinee is an effect probe; each arm prints its index and every variable it binds. non-trivial = matrices where a row other than the first is selected for some value, or some value matches no row; distinct = distinct source text"
+        "scrutinee types {bool,int32,uint8,string,(bool,bool),(bool,int32),E,Opt[bool],S,(E2,E2),(int32,int32),(string,int32),(int32,string),(int32,int32,int32)}; all patterns (wildcard, variable, 2 literals, constructor/tuple/struct with sub-patterns; depth 2 for S and (E2,E2); struct patterns with the fields in declaration order and in the other order; columns of all-literal-typed tuples use {_, lit0, lit1}); all matrices of <= 3 rows for types with <= 12 patterns, else <= 2 rows, plus the 4-row matrices of (int32,int32) over the 8 tuple patterns with a literal, with a catch-all (quick) / <= 4 rows for <= 12 patterns (unit result; tuple types with a catch-all only), <= 3 rows for <= 30 patterns, else 2 (thorough), with and without a trailing catch-all, results unit and int32; every destructuring let; matrices of <= 2 rows also with the scrutinee held in a variable that is matched twice; each matrix applied to every value of the type (one program per value when some value matches no row); the scrutinee is an effect probe; each arm prints its index and every variable it binds. non-trivial = matrices where a row other than the first is selected for some value, or some value matches no row; distinct = distinct source text"
     }
     fn cases(&self, tier: Tier) -> Box<dyn Iterator<Item = Value> + '_> {
         let n = specs(tier).len();
